@@ -125,6 +125,25 @@ func (w *c14Walker) stmt(s ast.Stmt, locked bool) (bool, bool) {
 			w.deferred = true
 			return locked, false
 		}
+		if fl, ok := x.Call.Fun.(*ast.FuncLit); ok {
+			// a deferred closure runs when the function returns: under the lock if an unlock was deferred BEFORE it (deferred
+			// calls run last-in first-out), or if the function keeps the lock to its end and the closure itself unlocks
+			// (`Lock(); defer func() { …; Unlock() }()`); its arguments are evaluated here
+			for _, a := range x.Call.Args {
+				w.accesses(a, locked)
+			}
+			entry := locked || w.deferred
+			sub := &c14Walker{fn: w.fn + "(deferred closure)", out: w.out, calls: w.calls, known: w.known}
+			after, _ := sub.stmts(fl.Body.List, entry)
+			if entry && !after && !w.deferred {
+				w.deferred = true // the closure is what unlocks: locked until the function returns
+			} else if !w.deferred && entry {
+				// no unlock deferred before it and it does not unlock itself: the explicit Unlock() of the function runs first
+				sub2 := &c14Walker{fn: w.fn + "(deferred closure)", out: w.out, calls: w.calls, known: w.known}
+				sub2.stmts(fl.Body.List, false)
+			}
+			return locked, false
+		}
 		w.accesses(x.Call, locked)
 		return locked, false
 	case *ast.BlockStmt:
@@ -200,7 +219,20 @@ func (w *c14Walker) stmt(s ast.Stmt, locked bool) (bool, bool) {
 		}
 		return res, false
 	case *ast.GoStmt:
-		w.accesses(x.Call, false) // a new goroutine does not hold the lock
+		// a new goroutine does not hold the lock (the arguments are evaluated here, by the caller)
+		for _, a := range x.Call.Args {
+			w.accesses(a, locked)
+		}
+		if fl, ok := x.Call.Fun.(*ast.FuncLit); ok {
+			sub := &c14Walker{fn: w.fn + "(goroutine)", out: w.out, calls: w.calls, known: w.known}
+			sub.stmts(fl.Body.List, false)
+		} else {
+			// the callee runs without the lock: record the call site as unlocked
+			saved := w.deferred
+			w.deferred = false
+			w.accesses(&ast.CallExpr{Fun: x.Call.Fun, Lparen: x.Call.Lparen, Rparen: x.Call.Rparen}, false)
+			w.deferred = saved
+		}
 		return locked, false
 	default:
 		w.accesses(s, locked)
